@@ -170,8 +170,8 @@ theorem dateLower_ge_date (c : PCtx) : (dateLower (ge (.raw "date") (.str c.from
   simp [dateLower, ge, isDateCol]
 
 /-! ### the selector -/
-theorem selectorSel_body (cfg : Cfg) (c : PCtx) (h : ProfCfg cfg c) (gs ks : List PCond) (hg : ∀ g ∈ gs, g.noDate = true)
-    (ok : List Alias) : bodyConfined cfg (winProf c) ok (selectorSel c gs ks) = true := by
+theorem selectorSel_body (cfg : Cfg) (c : PCtx) (h : ProfCfg cfg c) (q : PQuery) (hg : ∀ g ∈ q.globals, g.noDate = true)
+    (ok : List Alias) : bodyConfined cfg (winProf c) ok (selectorSel c q) = true := by
   apply bodyConfined_index cfg _ ok _ c.ginTable rfl h.gin rfl
   · simp only [selectorSel, preOf, whereOf, conjuncts_none, List.nil_append]
     apply all_conj
@@ -181,16 +181,16 @@ theorem selectorSel_body (cfg : Cfg) (c : PCtx) (h : ProfCfg cfg c) (gs ks : Lis
     · exact fine_dateConds c e he
     · split at he
       · cases he
-      · simp only [List.mem_singleton] at he; subst he; exact fine_and_conds _ gs hg
+      · simp only [List.mem_singleton] at he; subst he; exact fine_and_conds _ q.globals hg
     · split at he
       · cases he
       · simp only [List.mem_singleton] at he; subst he; exact fine_or _ _
   · simp only [selectorSel, preOf, whereOf, conjuncts_none, List.nil_append]
     exact any_conj _ _ (ge (.raw "date") (.str c.fromDate)) (by simp [dateConds]) (leaf_logical _ _ (by decide)) (dateLower_ge_date c)
 
-theorem selectorSel_good (cfg : Cfg) (c : PCtx) (h : ProfCfg cfg c) (gs ks : List PCond) (hg : ∀ g ∈ gs, g.noDate = true) :
-    GoodM cfg (winProf c) (selectorSel c gs ks) :=
-  ⟨trivial, selectorSel_body cfg c h gs ks hg⟩
+theorem selectorSel_good (cfg : Cfg) (c : PCtx) (h : ProfCfg cfg c) (q : PQuery) (hg : ∀ g ∈ q.globals, g.noDate = true) :
+    GoodM cfg (winProf c) (selectorSel c q) :=
+  ⟨trivial, selectorSel_body cfg c h q hg⟩
 
 end Qryn.Confine
 
@@ -202,12 +202,12 @@ theorem bodyConfined_limited (cfg : Cfg) (w : Window) (ok : List Alias) (c : PCt
   unfold limited; split <;> simp
 
 /-- the `fp` entry every planner adds: the selector, an index scan confined on its own -/
-theorem fpEntry_inv (cfg : Cfg) (c : PCtx) (h : ProfCfg cfg c) (gs ks : List PCond) (hg : ∀ g ∈ gs, g.noDate = true) :
-    ∀ e ∈ [((Alias.named "fp"), selectorSel c gs ks)], IM cfg (winProf c) [] (e.2.withs ++ [e]) := by
+theorem fpEntry_inv (cfg : Cfg) (c : PCtx) (h : ProfCfg cfg c) (q : PQuery) (hg : ∀ g ∈ q.globals, g.noDate = true) :
+    ∀ e ∈ [((Alias.named "fp"), selectorSel c q)], IM cfg (winProf c) [] (e.2.withs ++ [e]) := by
   intro e he
   simp only [List.mem_singleton] at he
   subst he
-  exact (selectorSel_good cfg c h gs ks hg).entry "fp"
+  exact (selectorSel_good cfg c h q hg).entry "fp"
 
 /-! ### data scans of `profiles` -/
 theorem lowerTs_ok (c : PCtx) (col : String) (hc : isTsCol col = true) : isLowerTs (winProf c) (ge (.raw col) (.int c.fromNs)) = true := by
@@ -218,10 +218,10 @@ theorem upperTsLt_ok (c : PCtx) (col : String) (hc : isTsCol col = true) : isUpp
   simp [isUpperTs, lt, hc, winProf]
 
 /-- **mergeProfiles_good.** -/
-theorem mergeProfiles_good (cfg : Cfg) (c : PCtx) (h : ProfCfg cfg c) (fpG fpK globals : List PCond)
-    (hg : ∀ g ∈ fpG, g.noDate = true) : GoodM cfg (winProf c) (mergeProfiles c fpG fpK globals) := by
+theorem mergeProfiles_good (cfg : Cfg) (c : PCtx) (h : ProfCfg cfg c) (fp : PQuery) (globals : List PCond)
+    (hg : ∀ g ∈ fp.globals, g.noDate = true) : GoodM cfg (winProf c) (mergeProfiles c fp globals) := by
   unfold mergeProfiles
-  apply GoodM.with_ _ _ _ (fpEntry_inv cfg c h fpG fpK hg)
+  apply GoodM.with_ _ _ _ (fpEntry_inv cfg c h fp hg)
   intro ok
   rw [bodyConfined_limited]
   apply bodyConfined_dataNT cfg _ ok _ c.profilesDistTable rfl h.profiles rfl
@@ -231,10 +231,10 @@ theorem mergeProfiles_good (cfg : Cfg) (c : PCtx) (h : ProfCfg cfg c) (fpG fpK g
     exact any_conj _ _ (le (.raw "timestamp_ns") (.int c.toNs)) (by simp) (leaf_logical _ _ (by decide)) (upperTsLe_ok c _ rfl)
 
 /-- `MergeRawPlanner` -/
-theorem mergeRaw_good (cfg : Cfg) (c : PCtx) (h : ProfCfg cfg c) (tu : Bytes) (fpG fpK globals : List PCond)
-    (hg : ∀ g ∈ fpG, g.noDate = true) : GoodM cfg (winProf c) (mergeRaw c tu fpG fpK globals) := by
+theorem mergeRaw_good (cfg : Cfg) (c : PCtx) (h : ProfCfg cfg c) (tu : Bytes) (fp : PQuery) (globals : List PCond)
+    (hg : ∀ g ∈ fp.globals, g.noDate = true) : GoodM cfg (winProf c) (mergeRaw c tu fp globals) := by
   unfold mergeRaw
-  apply GoodM.with_ _ _ _ (fpEntry_inv cfg c h fpG fpK hg)
+  apply GoodM.with_ _ _ _ (fpEntry_inv cfg c h fp hg)
   intro ok
   rw [bodyConfined_limited]
   apply bodyConfined_dataNT cfg _ ok _ c.profilesDistTable rfl h.profiles rfl
@@ -253,11 +253,11 @@ theorem noTable_with_good {cfg : Cfg} {w : Window} (x : Sel) (hx : fromTable (fr
   exact g.entry n
 
 /-- **mergeTraces_good.** raw → pre_joined → joined → the aggregate: only `raw` reads a table -/
-theorem mergeTraces_good (cfg : Cfg) (c : PCtx) (h : ProfCfg cfg c) (tu : Bytes) (fpG fpK globals : List PCond)
-    (hg : ∀ g ∈ fpG, g.noDate = true) : GoodM cfg (winProf c) (mergeTraces c tu fpG fpK globals) := by
+theorem mergeTraces_good (cfg : Cfg) (c : PCtx) (h : ProfCfg cfg c) (tu : Bytes) (fp : PQuery) (globals : List PCond)
+    (hg : ∀ g ∈ fp.globals, g.noDate = true) : GoodM cfg (winProf c) (mergeTraces c tu fp globals) := by
   unfold mergeTraces mergeAggregated mergeJoined
   exact noTable_with_good _ rfl "joined" (noTable_with_good _ rfl "pre_joined" (noTable_with_good _ rfl "raw"
-    (mergeRaw_good cfg c h tu fpG fpK globals hg)))
+    (mergeRaw_good cfg c h tu fp globals hg)))
 
 /-! ### index scans of `profiles_series` -/
 theorem indexScan_body (cfg : Cfg) (c : PCtx) (ok : List Alias) (s : Sel) (t : String)
@@ -278,19 +278,19 @@ theorem indexScan_body (cfg : Cfg) (c : PCtx) (ok : List Alias) (s : Sel) (t : S
     exact any_conj _ _ (ge (.raw "date") (.str c.fromDate)) (by simp [dateConds]) (leaf_logical _ _ (by decide)) (dateLower_ge_date c)
 
 /-- `GetLabelsPlanner` -/
-theorem getLabels_good (cfg : Cfg) (c : PCtx) (h : ProfCfg cfg c) (groupBy : List Bytes) (fpG fpK globals : List PCond)
-    (hg : ∀ g ∈ fpG, g.noDate = true) (hm : ∀ g ∈ globals, g.noDate = true) :
-    GoodM cfg (winProf c) (getLabels c groupBy fpG fpK globals) := by
+theorem getLabels_good (cfg : Cfg) (c : PCtx) (h : ProfCfg cfg c) (groupBy : List Bytes) (fp : PQuery) (globals : List PCond)
+    (hg : ∀ g ∈ fp.globals, g.noDate = true) (hm : ∀ g ∈ globals, g.noDate = true) :
+    GoodM cfg (winProf c) (getLabels c groupBy fp globals) := by
   unfold getLabels
-  apply GoodM.with_ _ _ _ (fpEntry_inv cfg c h fpG fpK hg)
+  apply GoodM.with_ _ _ _ (fpEntry_inv cfg c h fp hg)
   intro ok
   exact indexScan_body cfg c ok _ c.seriesTable rfl h.series rfl [.isIn (.raw "fingerprint") [.withRef (.named "fp")]] globals rfl
     (by intro e he; simp only [List.mem_singleton] at he; subst he; exact fine_isIn _ _ _) hm
 
 /-- **selectSeries_good.** -/
 theorem selectSeries_good (cfg : Cfg) (c : PCtx) (h : ProfCfg cfg c) (tu : Bytes) (avg : Bool) (step : Int) (groupBy : List Bytes)
-    (fpG fpK globals : List PCond) (hg : ∀ g ∈ fpG, g.noDate = true) (hm : ∀ g ∈ globals, g.noDate = true) :
-    GoodM cfg (winProf c) (selectSeries c tu avg step (getLabels c groupBy fpG fpK globals) globals) := by
+    (fp : PQuery) (globals : List PCond) (hg : ∀ g ∈ fp.globals, g.noDate = true) (hm : ∀ g ∈ globals, g.noDate = true) :
+    GoodM cfg (winProf c) (selectSeries c tu avg step (getLabels c groupBy fp globals) globals) := by
   unfold selectSeries
   apply GoodM.with_
   · intro ok
@@ -302,7 +302,7 @@ theorem selectSeries_good (cfg : Cfg) (c : PCtx) (h : ProfCfg cfg c) (tu : Bytes
   · intro e he
     simp only [List.mem_singleton] at he
     subst he
-    exact (getLabels_good cfg c h groupBy fpG fpK globals hg hm).entry "labels"
+    exact (getLabels_good cfg c h groupBy fp globals hg hm).entry "labels"
 
 /-- `AllTimeSeriesSelectPlanner` -/
 theorem allTimeSeries_good (cfg : Cfg) (c : PCtx) (h : ProfCfg cfg c) : GoodM cfg (winProf c) (allTimeSeries c) := by
@@ -312,11 +312,11 @@ theorem allTimeSeries_good (cfg : Cfg) (c : PCtx) (h : ProfCfg cfg c) : GoodM cf
   exact this
 
 /-- `TimeSeriesSelectPlanner` -/
-theorem timeSeriesSelect_good (cfg : Cfg) (c : PCtx) (h : ProfCfg cfg c) (fpG fpK globals : List PCond)
-    (hg : ∀ g ∈ fpG, g.noDate = true) (hm : ∀ g ∈ globals, g.noDate = true) :
-    GoodM cfg (winProf c) (timeSeriesSelect c fpG fpK globals) := by
+theorem timeSeriesSelect_good (cfg : Cfg) (c : PCtx) (h : ProfCfg cfg c) (fp : PQuery) (globals : List PCond)
+    (hg : ∀ g ∈ fp.globals, g.noDate = true) (hm : ∀ g ∈ globals, g.noDate = true) :
+    GoodM cfg (winProf c) (timeSeriesSelect c fp globals) := by
   unfold timeSeriesSelect
-  apply GoodM.with_ _ _ _ (fpEntry_inv cfg c h fpG fpK hg)
+  apply GoodM.with_ _ _ _ (fpEntry_inv cfg c h fp hg)
   intro ok
   exact indexScan_body cfg c ok _ c.seriesDistTable rfl h.seriesDist rfl [.isIn (.raw "p.fingerprint") [.withRef (.named "fp")]] globals rfl
     (by intro e he; simp only [List.mem_singleton] at he; subst he; exact fine_isIn _ _ _) hm
@@ -329,14 +329,13 @@ theorem filterLabels_good {cfg : Cfg} {w : Window} (labels : List Bytes) {main :
   · exact noTable_with_good _ rfl "pre_label_filter" g
 
 /-- **planSeries_good.** -/
-theorem profSeries_good (cfg : Cfg) (c : PCtx) (h : ProfCfg cfg c) (labels : List Bytes) (sel : Option (List PCond × List PCond))
-    (hg : ∀ p, sel = some p → ∀ g ∈ p.1, g.noDate = true) : GoodM cfg (winProf c) (Prof.planSeries c labels sel) := by
+theorem profSeries_good (cfg : Cfg) (c : PCtx) (h : ProfCfg cfg c) (labels : List Bytes) (sel : Option PQuery)
+    (hg : ∀ p, sel = some p → ∀ g ∈ p.globals, g.noDate = true) : GoodM cfg (winProf c) (Prof.planSeries c labels sel) := by
   unfold Prof.planSeries
   cases sel with
   | none => exact allTimeSeries_good cfg c h
   | some p =>
-    obtain ⟨g, k⟩ := p
-    exact filterLabels_good labels (timeSeriesSelect_good cfg c h g k g (hg _ rfl) (hg _ rfl))
+    exact filterLabels_good labels (timeSeriesSelect_good cfg c h p p.globals (hg _ rfl) (hg _ rfl))
 
 /-- `GenericLabelsPlanner` without a selector -/
 theorem labelsNoSel_good (cfg : Cfg) (c : PCtx) (h : ProfCfg cfg c) (col : String) (label : Option Bytes) :
@@ -463,35 +462,35 @@ theorem labelsSel_body (cfg : Cfg) (c : PCtx) (h : ProfCfg cfg c) (col : String)
     exact any_conj _ _ (ge (.raw "date") (.str c.fromDate)) (by simp [dateConds]) (leaf_logical _ _ (by decide)) (dateLower_ge_date c)
 
 theorem labelsUnion_confined (cfg : Cfg) (c : PCtx) (h : ProfCfg cfg c) (col : String) (label : Option Bytes)
-    (scripts : List (List PCond × List PCond)) (hg : ∀ p ∈ scripts, ∀ g ∈ p.1, g.noDate = true) :
+    (scripts : List PQuery) (hg : ∀ p ∈ scripts, ∀ g ∈ p.globals, g.noDate = true) :
     unionConfined cfg (winProf c) (labelsUnion c col label scripts) = true := by
   unfold unionConfined labelsUnion
   simp only [Bool.and_eq_true, List.all_map, List.all_eq_true, Function.comp, List.all_nil, Bool.true_and, Bool.and_true]
-  refine ⟨fun p hp => ⟨selectorSel_body cfg c h p.1 p.2 (hg p hp) [], ?_⟩, labelsSel_body cfg c h col label true []⟩
+  refine ⟨fun p hp => ⟨selectorSel_body cfg c h p (hg p hp) [], ?_⟩, labelsSel_body cfg c h col label true []⟩
   simp [selectorSel, isIndexSelection, fromTable, h.gin]
 
 /-- `ProfileSizePlanner` / AnalyzeQuery -/
-theorem analyzeQuery_good (cfg : Cfg) (c : PCtx) (h : ProfCfg cfg c) (globals kvs : List PCond) (hg : ∀ g ∈ globals, g.noDate = true) :
-    GoodM cfg (winProf c) (analyzeQuery c globals kvs) := by
+theorem analyzeQuery_good (cfg : Cfg) (c : PCtx) (h : ProfCfg cfg c) (q : PQuery) (hg : ∀ g ∈ q.globals, g.noDate = true) :
+    GoodM cfg (winProf c) (analyzeQuery c q) := by
   unfold analyzeQuery profileSize
-  exact noTable_with_good _ rfl "pre_profile_size" (mergeProfiles_good cfg c h globals kvs globals hg)
+  exact noTable_with_good _ rfl "pre_profile_size" (mergeProfiles_good cfg c h q q.globals hg)
 
-theorem timeSeriesSelect_index (cfg : Cfg) (c : PCtx) (h : ProfCfg cfg c) (g k m : List PCond) :
-    isIndexSelection cfg (timeSeriesSelect c g k m) = true := by
+theorem timeSeriesSelect_index (cfg : Cfg) (c : PCtx) (h : ProfCfg cfg c) (q : PQuery) (m : List PCond) :
+    isIndexSelection cfg (timeSeriesSelect c q m) = true := by
   simp [timeSeriesSelect, Sel.with_, Sel.setWiths, isIndexSelection, fromTable, seriesFrom, h.seriesDist]
 
 theorem seriesUnion_confined (cfg : Cfg) (c : PCtx) (h : ProfCfg cfg c) (labels : List Bytes)
-    (scripts : List (List PCond × List PCond)) (hg : ∀ p ∈ scripts, ∀ g ∈ p.1, g.noDate = true) :
+    (scripts : List PQuery) (hg : ∀ p ∈ scripts, ∀ g ∈ p.globals, g.noDate = true) :
     unionConfined cfg (winProf c) (seriesUnion c labels scripts) = true := by
-  have hops : ∀ p ∈ scripts, bodyConfined cfg (winProf c) [] (timeSeriesSelect c p.1 p.2 p.1) = true ∧
-      isIndexSelection cfg (timeSeriesSelect c p.1 p.2 p.1) = true := by
+  have hops : ∀ p ∈ scripts, bodyConfined cfg (winProf c) [] (timeSeriesSelect c p p.globals) = true ∧
+      isIndexSelection cfg (timeSeriesSelect c p p.globals) = true := by
     intro p hp
-    exact ⟨(timeSeriesSelect_good cfg c h p.1 p.2 p.1 (hg p hp) (hg p hp)).body [], timeSeriesSelect_index cfg c h _ _ _⟩
-  have hpre : (match scripts with | [] => ([] : List (Alias × Sel)) | p :: _ => [(.named "fp", selectorSel c p.1 p.2)]).all
+    exact ⟨(timeSeriesSelect_good cfg c h p p.globals (hg p hp) (hg p hp)).body [], timeSeriesSelect_index cfg c h _ _⟩
+  have hpre : (match scripts with | [] => ([] : List (Alias × Sel)) | p :: _ => [(.named "fp", selectorSel c p)]).all
       (fun e => bodyConfined cfg (winProf c) [] e.2) = true := by
     cases scripts with
     | nil => rfl
-    | cons p rest => simp [selectorSel_body cfg c h p.1 p.2 (hg p (by simp)) []]
+    | cons p rest => simp [selectorSel_body cfg c h p (hg p (by simp)) []]
   have hpd : bodyConfined cfg (winProf c) [] preDistinctSel = true := bodyConfined_noTable _ _ _ _ rfl
   unfold unionConfined seriesUnion
   simp only
